@@ -177,6 +177,9 @@ def make_hook(target_func, target_ordinal, stats=None, capture=False, head_assum
         if head_assume is not None and ordinal == target_ordinal:
             # precondition of the step obligation on the (fresh) loop-head buffer, known to the body's execution
             for c in head_assume(frame, old):
+                if c is False:
+                    # this path lies outside the precondition of the step obligation (decided on the way): nothing to prove
+                    raise LoopSummarized(dict(reached=False, outside_precondition=True))
                 ctx.assume(V.bexpr(c) if isinstance(c, (V.SBool, V.SInt)) else c)
         tv = frame.ev(node.test)
         if not I.truth(tv):
